@@ -259,6 +259,14 @@ def prepare(tier, seed):
             prep['t12'] = {'cases': len(res), 'tokens_compared': ntok, 'streams': streams, 'verdicts': verdicts,
                            'regions': regions, 'diffs': diffs[:200], 'ndiffs': len(diffs),
                            'distinct_expanded': len(nontrivial), 'samples': samples}
+        prep['t3'] = None
+        if prep['lean_build_ok']:
+            try:
+                import t3
+                prep['t3'] = t3.run(tier, seed, WORK, REPO)
+            except Exception as ex:   # harness failure: reported, never silently passed
+                import traceback
+                prep['errors'].append('T3 harness failed: ' + traceback.format_exc()[-2000:])
         prep['wall_s'] = round(time.time() - t0, 1)
         json.dump(prep, open(pj, 'w'))
         return prep
@@ -341,15 +349,32 @@ def run_check(pid, tier):
                                 'other_mismatches_in_consumed_regions': len(rel) - 1,
                                 'replay': f'./check {pid} --replay <this file>'}, False))
 
-    # (3) oracle on real observations / search for a failing input: runtime families
-    found = []
-    try:
-        import t3
-        found = t3.search(pid, cfg, prep, tier, seed, rel)
-    except ImportError:
-        pass
-    for f in found:
-        violations.append((f, True))
+    # (3) runtime tie (impl vs model) in this property's families, and the property's own
+    #     oracle on the implementation's observations (impl vs oracle), reported separately
+    t3r = prep.get('t3')
+    t3_rel = []
+    if cfg.get('t3'):
+        if t3r is None:
+            violations.append(({'property': pid, 'broken': 'tie', 'tie': 'T3 harness', 'detail': prep['errors']}, False))
+        else:
+            for f in t3r['oracle_failures']:
+                if f['property'] == pid:
+                    violations.append(({'property': pid, 'broken': 'property', 'what': f['what'], 'dsl': f['dsl'],
+                                        'feature': f['feature'], 'prefix': f['prefix'], 'ops': f['ops'], 'observed': f['observed'],
+                                        'scenario': f['sid'], 'family': f['family'],
+                                        'replay': f'./check {pid} --replay <this file>'}, True))
+                elif f['property'] == 'HARNESS':
+                    violations.append(({'property': pid, 'broken': 'tie', 'tie': 'T3 harness output', 'what': f['what']}, False))
+            t3_rel = [d for d in t3r['model_diffs'] if d['family'] in cfg['t3']]
+            if t3_rel:
+                d = t3_rel[0]
+                violations.append(({'property': pid, 'broken': 'tie', 'tie': f"T3 family {d['family']} (implementation vs model)",
+                                    'scenario': d['sid'], 'dsl': d['dsl'], 'feature': d['feature'], 'prefix': d['prefix'],
+                                    'ops': d['ops'], 'impl': d['impl'], 'model': d['model'],
+                                    'other_disagreements': len(t3_rel) - 1}, False))
+            if t3r['build_errors'] and t3r['machines'] == 0:
+                violations.append(({'property': pid, 'broken': 'tie', 'tie': 'T3 crates do not build',
+                                    'detail': t3r['build_errors'][:1]}, False))
 
     # evidence
     cov = {
@@ -369,6 +394,14 @@ def run_check(pid, tier):
             'mismatches_total': (tie or {}).get('ndiffs', 0),
             'mismatches_in_consumed_regions': len(rel),
         },
+        'runtime': ({
+            'machines_compiled': t3r['machines'], 'scenarios': t3r['scenarios'], 'operations': t3r['ops'],
+            'hook_invocations_traced': t3r['hooks_traced'], 'families': t3r['families'], 'shapes': t3r['shapes'],
+            'families_consumed': cfg.get('t3', []),
+            'impl_vs_model_disagreements': t3r['n_model_diffs'], 'impl_vs_oracle_failures': t3r['n_oracle_failures'],
+            'crates_failed_to_build': len(t3r['build_errors']), 'samples': t3r['samples'][:2],
+        } if t3r else None),
+        'traces_validated_against_impl': (t3r or {}).get('scenarios', 0),
         'evaluations': (tie or {}).get('cases', 0),
         'distinct_nontrivial': (tie or {}).get('distinct_expanded', 0),
         'rule': 'definitions: every state_machine! block of /repo (x2 feature settings) + seeded random well-formed trees '
@@ -412,12 +445,21 @@ def run_replay(pid, path):
             return 1
         print('replay: model and implementation agree on this definition now')
         return 0
-    try:
+    if 'ops' in payload and 'prefix' in payload:
         import t3
-        return t3.replay(pid, payload, path)
-    except ImportError:
-        print(json.dumps(payload, indent=1)[:3000])
-        return 1
+        res = t3.replay_one(payload, WORK, REPO)
+        print(json.dumps(res, indent=1)[:4000])
+        bad = [f for f in res['oracle_failures'] if f['property'] == pid]
+        if bad:
+            print(f'VIOLATION property={pid} replay={path}')
+            return 1
+        if res['impl'] != res['model']:
+            print(f'VIOLATION property={pid} replay={path} no-failing-input-found')
+            return 1
+        print('replay: the implementation satisfies the property on this input and agrees with the model')
+        return 0
+    print(json.dumps(payload, indent=1)[:3000])
+    return 1
 
 def main():
     if len(sys.argv) < 3:
